@@ -11,16 +11,26 @@
 (***************************************************************************)
 EXTENDS Integers, Sequences, FiniteSets, TLC, Json, IOUtils, TLCExt
 
-VARIABLES l, started, ended, oracle, lo, fixed, run
+VARIABLES l, started, ended, oracle, lo, fixed, run, mode
 
-tvars == <<l, started, ended, oracle, lo, fixed, run>>
+tvars == <<l, started, ended, oracle, lo, fixed, run, mode>>
 
 Log == ndJsonDeserialize(IOEnv.TRACE_FILE)
 
 Report(kind, id, rec) == PrintT(<<kind, id, run', rec.seq, l>>)
 Chk(id, cond, rec) == IF cond THEN TRUE ELSE Report("VIOLATION", id, rec)
 
-TraceInit == l = 1 /\ started = 0 /\ ended = 0 /\ oracle = <<>> /\ lo = <<>> /\ fixed = <<>> /\ run = ""
+TraceInit == l = 1 /\ started = 0 /\ ended = 0 /\ oracle = <<>> /\ lo = <<>> /\ fixed = <<>> /\ run = "" /\ mode = ""
+
+\* A digest is "<single-item answers>/<listings>".  Two answers for one height that differ ONLY in the listing part, on a node running with
+\* IAVL fast-node storage (the default), are the recorded finding `iavl-fastnode-iteration` (DESIGN.md 0.3): an iterator over the latest saved
+\* version walks the live fast-node index and can see entries of the block being committed.  The same runs are repeated with fast nodes
+\* disabled (mode "nofast"): there ANY difference is a violation, so a listing defect of the custom modules cannot hide behind the finding.
+Part(d, k) == LET i == CHOOSE j \in 1..Len(d) : SubSeq(d, j, j) = "/" IN IF k = 1 THEN SubSeq(d, 1, i - 1) ELSE SubSeq(d, i + 1, Len(d))
+SameAnswer(rec, a, b) ==
+    IF a = b THEN TRUE
+    ELSE IF mode = "fastnode" /\ Part(a, 1) = Part(b, 1) THEN Report("VIOLATION", "C20:iavl-fastnode-iteration", rec)
+    ELSE Report("VIOLATION", "C20", rec)
 
 Put(f, k, v) == [x \in DOMAIN f \cup {k} |-> IF x = k THEN v ELSE f[x]]
 
@@ -29,18 +39,18 @@ TraceNext ==
     /\ l' = l + 1
     /\ LET rec == Log[l] IN
        CASE rec.ev = "start" ->
-              /\ started' = rec.height /\ ended' = rec.height /\ oracle' = Put(<<>>, rec.height, rec.digest) /\ lo' = <<>> /\ fixed' = <<>> /\ run' = rec.run
+              /\ started' = rec.height /\ ended' = rec.height /\ oracle' = Put(<<>>, rec.height, rec.digest) /\ lo' = <<>> /\ fixed' = <<>> /\ run' = rec.run /\ mode' = rec.mode
          [] rec.ev = "CommitStart" ->
-              /\ started' = rec.height /\ UNCHANGED <<ended, oracle, lo, fixed, run>>
+              /\ started' = rec.height /\ UNCHANGED <<ended, oracle, lo, fixed, run, mode>>
               /\ Chk("C20", rec.height = started + 1 /\ started = ended, rec)
          [] rec.ev = "CommitEnd" ->
-              /\ ended' = rec.height /\ oracle' = Put(oracle, rec.height, rec.digest) /\ UNCHANGED <<started, lo, fixed, run>>
+              /\ ended' = rec.height /\ oracle' = Put(oracle, rec.height, rec.digest) /\ UNCHANGED <<started, lo, fixed, run, mode>>
               \* answers already served from this height (between the commit taking effect and returning) are the committed state as well
-              /\ Chk("C20", rec.height \in DOMAIN fixed => fixed[rec.height] = rec.digest, rec)
+              /\ (rec.height \in DOMAIN fixed => SameAnswer(rec, fixed[rec.height], rec.digest))
          [] rec.ev = "QStart" ->
-              /\ lo' = Put(lo, rec.reader, ended) /\ UNCHANGED <<started, ended, oracle, fixed, run>>
+              /\ lo' = Put(lo, rec.reader, ended) /\ UNCHANGED <<started, ended, oracle, fixed, run, mode>>
          [] rec.ev = "QEnd" ->
-              /\ UNCHANGED <<started, ended, oracle, lo, run>>
+              /\ UNCHANGED <<started, ended, oracle, lo, run, mode>>
               /\ Chk("C17", ~rec.panic, rec)
               /\ IF rec.err THEN fixed' = fixed
                  ELSE \* the interval rule of Snapshot.tla
@@ -48,10 +58,10 @@ TraceNext ==
                       /\ Chk("C20", rec.req = 0 => lo[rec.reader] <= rec.served /\ rec.served <= started, rec)
                       \* the answer is the committed state of the height it was served from: if the oracle for that height is known
                       \* the digests must agree; in any case all answers for one height agree with each other (fixed height => identical answers)
-                      /\ Chk("C20", rec.served \in DOMAIN oracle => rec.digest = oracle[rec.served], rec)
-                      /\ Chk("C20", rec.served \in DOMAIN fixed => rec.digest = fixed[rec.served], rec)
+                      /\ (rec.served \in DOMAIN oracle => SameAnswer(rec, oracle[rec.served], rec.digest))
+                      /\ (rec.served \in DOMAIN fixed => SameAnswer(rec, fixed[rec.served], rec.digest))
                       /\ fixed' = IF rec.served \in DOMAIN fixed THEN fixed ELSE Put(fixed, rec.served, rec.digest)
-         [] OTHER -> UNCHANGED <<started, ended, oracle, lo, fixed, run>>
+         [] OTHER -> UNCHANGED <<started, ended, oracle, lo, fixed, run, mode>>
 
 TraceSpec == TraceInit /\ [][TraceNext]_tvars
 
